@@ -12,10 +12,7 @@ Theorem C08_put_then_same_everywhere : forall cfg pol s p ct b im inm s' o,
   store_inv s ->
   do_put cfg pol s p ct b im inm = (s', (S201, PEtag (EtItem o))) ->
   exists pc', resolve s' p = NItem pc' o.
-Proof.
-  intros cfg pol s p ct b im inm s' o Hs H.
-  destruct (put_item_effect _ _ _ _ _ _ _ _ _ _ Hs H) as (pc & _ & Hr & _). eexists. exact Hr.
-Qed.
+Proof. exact put_then_resolves. Qed.
 Print Assumptions C08_put_then_same_everywhere.
 
 Theorem C08_same_everywhere : forall pol s p pc o w,
